@@ -71,18 +71,36 @@ func guard(f func()) (p *panicInfo) {
 	return nil
 }
 
+// site returns the innermost frame of the recovered panic that belongs to
+// golang.org/x/crypto (the function in which the panic was raised).
+func (p *panicInfo) site() string {
+	for _, l := range strings.Split(p.stack, "\n") {
+		if strings.HasPrefix(l, "golang.org/x/crypto/") {
+			if i := strings.LastIndex(l, "("); i > 0 {
+				return l[:i]
+			}
+			return l
+		}
+	}
+	return ""
+}
+
 // knownPanic maps a recovered panic to the id of the known finding whose exact
-// crash site it is ("" when it is none of them).
+// crash site (function raising the panic + panic value) it is; "" when it is
+// none of them.
 func knownPanic(p *panicInfo) string {
 	s := fmt.Sprint(p.val)
+	site := p.site()
+	oob := strings.Contains(s, "index out of range") || strings.Contains(s, "slice bounds out of range")
 	switch {
-	case s == "impossible" && strings.Contains(p.stack, "(*PrivateKey).parsePrivateKey"):
+	case s == "impossible" && strings.HasSuffix(site, "packet.(*PrivateKey).parsePrivateKey"):
 		return "F31"
-	case (strings.Contains(s, "index out of range") || strings.Contains(s, "slice bounds out of range")) &&
-		strings.Contains(p.stack, "(*EncryptedKey).Decrypt"):
+	case oob && strings.HasSuffix(site, "packet.(*EncryptedKey).Decrypt"):
 		return "F32"
-	case strings.Contains(s, "integer divide by zero") && strings.Contains(p.stack, "otr.(*Conversation).encode"):
+	case strings.Contains(s, "integer divide by zero") && strings.HasSuffix(site, "otr.(*Conversation).encode"):
 		return "F33"
+	case strings.Contains(s, "index out of range [0] with length 0") && strings.HasSuffix(site, "openpgp/elgamal.Decrypt"):
+		return "F36"
 	}
 	return ""
 }
